@@ -422,6 +422,7 @@ func mapAt(m interface{}, key interface{}) interface{} { return nil }
 func mapAll(m interface{}) interface{} { return nil }
 func ghostAll(name string) interface{} { return nil }
 func anyElems(s interface{}) interface{} { return nil }
+func anyFld(f interface{}) interface{} { return nil }
 func mapHas(m interface{}, key interface{}) bool { return false }
 func mapKeyOf(m interface{}, key interface{}) int { return 0 }
 func mapKeyPresent(m interface{}, k int) bool { return false }
